@@ -8,7 +8,7 @@ from harness import lib_queue as lq
 
 PID = 'C05'
 TITLE = 'Failures and stop requests propagate through queues without hanging'
-LEAN_MODULES = ['MlModel.Properties.C05', 'MlModel.Properties.C05Live']
+LEAN_MODULES = ['MlModel.Properties.C05', 'MlModel.Properties.C05Live', 'MlModel.Witness.C05']
 TRUSTED = list(__import__('harness.props.c04', fromlist=['TRUSTED']).TRUSTED)
 ASSUMPTIONS = ['a timeout is modelled as a scheduler choice available whenever a thread is parked with a timeout configured']
 RULE = ('as C04 plus: each producer source fails with p=0.4 at a random position; an extra thread calls maybe_stop() or '
